@@ -510,14 +510,14 @@ theorem removeObjects_silent (L : I.Law) (toi : Nat) (s : State σ) (l : List Na
     have h2 := ih (removeObject I { s with errors := s.errors.filter (· ≠ t) } t).1 h1.1
     exact ⟨h2.1, h1.2.append h2.2⟩
 
-theorem cleanupFdt_objects {s s' : State σ} {now : Int} (h : cleanupFdt s now = .ok s') :
+theorem cleanupFdt_objects {s s' : State σ} {now : Int} {st : Nat → Bool} (h : cleanupFdt s now st = .ok s') :
     s'.objects = s.objects := by
   unfold cleanupFdt at h
   split at h
   · cases h
   · injection h with h; subst h; rfl
 
-theorem cleanup_silent (L : I.Law) (toi : Nat) (s s' : State σ) (now : Int) (stale : Nat → Bool)
+theorem cleanup_silent (L : I.Law) (toi : Nat) (s s' : State σ) (now : Int) (stale : Stale)
     (evs : List Ev) (h : cleanup I s now stale = .ok (s', evs)) (hinv : InvT L toi s.objects) :
     StepSilent L toi s' evs := by
   unfold cleanup at h
@@ -527,7 +527,7 @@ theorem cleanup_silent (L : I.Law) (toi : Nat) (s s' : State σ) (now : Int) (st
   · rename_i s2 hc
     simp only [Except.ok.injEq, Prod.mk.injEq] at h
     obtain ⟨rfl, rfl⟩ := h
-    have h1 : InvT L toi (cleanupObjects I s stale).1.objects ∧ Silent toi (cleanupObjects I s stale).2 := by
+    have h1 : InvT L toi (cleanupObjects I s stale.obj).1.objects ∧ Silent toi (cleanupObjects I s stale.obj).2 := by
       unfold cleanupObjects
       split
       · exact ⟨hinv, Silent.nil⟩
